@@ -795,3 +795,88 @@ class RelabelCtx:
     @property
     def stats(self):
         return self.ctx.stats
+
+
+def range_item(v):
+    """if v is the item of a loop over `start..end` (`for i in a..b`: (next(range state) as Some).0), return (start node, end node)"""
+    v = peel(v)
+    g = 0
+    while v.kind in ("variant", "field") and v.kids and g < 4:
+        if v.kind == "field" and v.d.get("adt") not in (OPTION,):
+            return None
+        v = peel(v.kids[0])
+        g += 1
+    if not (v.kind == "call" and v.d["term"].get("name") == "next" and "std::ops::Range<" in (v.d["term"].get("self_ty") or "") and v.kids):
+        return None
+    seen, stack = set(), [v.kids[0]]
+    while stack:
+        x = peel(stack.pop())
+        if id(x) in seen:
+            continue
+        seen.add(id(x))
+        if x.kind in ("phi", "alias"):
+            stack.extend(k for k in x.kids if k.kind != "cycle")
+        elif x.kind == "mut" and x.kids:
+            stack.append(x.kids[0])
+        elif x.kind == "call" and x.d["term"].get("name") in ("into_iter", "iter", "by_ref") and x.kids:
+            stack.append(x.kids[0])
+        elif x.kind == "agg" and x.d["agg"].get("adt") == "std::ops::Range" and len(x.kids) == 2:
+            return (x.kids[0], x.kids[1])
+        else:
+            return None
+    return None
+
+
+def membership(c):
+    """(container node, key node) when the bool-valued call `c` tests membership of a key in a collection:
+    `X.contains(&k)` or `X.iter().any(|e| *e == k)` (either operand order, `==` through any PartialEq impl)"""
+    if c.kind != "call" or not c.kids:
+        return None
+    nm = c.d["term"].get("name")
+    if nm == "contains" and len(c.kids) == 2:
+        return (c.kids[0], c.kids[1])
+    if nm == "any" and c.d["term"].get("trait") == "std::iter::Iterator" and len(c.kids) == 2:
+        clo = peel(c.kids[1])
+        if not (clo.kind == "agg" and clo.d["agg"].get("kind") == "closure" and clo.fn is not None):
+            return None
+        cf = clo.fn.facts.fns.get(clo.d["agg"].get("def"))
+        if cf is None:
+            return None
+        rv = peel(vals(cf).return_value())
+        if not (rv.kind == "call" and rv.d["term"].get("name") == "eq" and len(rv.kids) == 2):
+            return None
+
+        def is_item(x):
+            x = peel(x)
+            g = 0
+            while x.kind in ("index", "field", "variant") and x.kids and g < 4:
+                x = peel(x.kids[0])
+                g += 1
+            return x.kind == "param" and x.d["idx"] == 2
+
+        def upvar(x):
+            x = peel(x)
+            g = 0
+            while x.kind == "index" and x.kids and g < 4:
+                x = peel(x.kids[0])
+                g += 1
+            if x.kind == "field" and x.kids and isinstance(x.d.get("idx"), int):
+                b = peel(x.kids[0])
+                g = 0
+                while b.kind == "index" and b.kids and g < 4:
+                    b = peel(b.kids[0])
+                    g += 1
+                if b.kind == "param" and b.d["idx"] == 1 and x.d["idx"] < len(clo.kids):
+                    return clo.kids[x.d["idx"]]
+            return None
+        a, b = rv.kids
+        key = upvar(b) if is_item(a) else (upvar(a) if is_item(b) else None)
+        if key is None:
+            return None
+        src = c.kids[0]
+        g = 0
+        while peel(src).kind == "call" and peel(src).d["term"].get("name") in ("iter", "into_iter", "by_ref") and peel(src).kids and g < 4:
+            src = peel(src).kids[0]
+            g += 1
+        return (src, key)
+    return None
